@@ -165,6 +165,10 @@ func (s *ServerDnsListener) closeConnection(u *userConnection) error {
 	s.oldConnections[u.UserId] = u
 	u.closed = true
 
+	// Wake up readers and writers blocked on the queues: nothing will arrive or be acknowledged any more
+	u.in.Close()
+	u.out.Close()
+
 	return nil
 }
 
